@@ -472,10 +472,26 @@ struct Obs
   std::string exc;     // exception escaped from the data callback ("" = none)
   int64_t peak = 0;
   uint64_t fed = 0;    // bytes offered before the session was seen closed (flood)
-  std::string canon() const
+  // message index encoded in the generator's request paths: /c/<stream id>/<index>[/...]
+  static long pathIndex(const std::string &p)
+  {
+    if (p.rfind("/c/", 0) != 0) return -1;
+    size_t a = p.find('/', 3);
+    if (a == std::string::npos || a + 1 >= p.size() || !isdigit((unsigned char)p[a + 1])) return -1;
+    return atol(p.c_str() + a + 1);
+  }
+  // For a hostile stream (validPrefix >= 0) the valid messages in front of the hostile one may or
+  // may not be served before the connection is rejected (the property does not say); only what
+  // is delivered from the hostile message onwards must not depend on the segmentation.
+  std::string canon(long validPrefix = -1) const
   {
     std::vector<std::string> v;
-    for (auto &r : reqs) v.push_back(r.json());
+    for (auto &r : reqs)
+    {
+      long idx = pathIndex(r.p);
+      if (validPrefix >= 0 && idx >= 0 && idx < validPrefix) continue;
+      v.push_back(r.json());
+    }
     std::sort(v.begin(), v.end());
     std::string o = sync ? "S|" : "s|";
     o += exc.empty() ? "" : "E|";
@@ -502,8 +518,9 @@ struct ServerDriver
   bool socketMode = false;
   Conn conn;           // in-proc: the primed session; socket: the per-framing connection
   uint64_t primeCtr = 0, syncCtr = 0;
-  int waitMs = 250, longWaitMs = 1500, graceMs = 30, longGraceMs = 300, paceUs = 300;
+  int waitMs = 250, longWaitMs = 1500, graceMs = 60, longGraceMs = 500, paceUs = 300;
   uint64_t framings = 0, feeds = 0, reprimes = 0, lateRecords = 0, separated = 0, socketFramings = 0;
+  bool shortWait = false;
 
   bool init()
   {
@@ -511,6 +528,7 @@ struct ServerDriver
     srv = startServer(port);
     return srv != nullptr;
   }
+  // connect a raw socket and learn the session id the server gave it (handlers receive req.sid)
   bool prime()
   {
     conn.closeFd();
@@ -559,11 +577,23 @@ struct ServerDriver
     g_watch.leave();
   }
 
+  // records of other sessions (stragglers of an earlier framing whose pool task ran late) are
+  // never attributed to the current framing
+  size_t countMine()
+  {
+    size_t n = 0;
+    for (auto &r : g_rec.recs) if (r.sid == conn.sid) n++;
+    return n;
+  }
   void waitQuiescent(const Case &c, Obs &o, uint64_t syncId, bool careful)
   {
     uint64_t t0 = vf::nowNs();
     uint64_t limit = uint64_t(careful ? longWaitMs : waitMs) * 1000000ull;
     uint64_t grace = uint64_t(careful ? longGraceMs : graceMs) * 1000000ull;
+    if (c.kind == "m") { limit = std::min<uint64_t>(limit, 60000000ull); grace = std::min<uint64_t>(grace, 20000000ull); }
+    // non-reference segmentations of a hostile stream: a short first look is enough, because any
+    // difference from the (carefully established) reference is re-run with the long limits
+    if (c.kind == "h" && shortWait && !careful) limit = std::min<uint64_t>(limit, uint64_t(waitMs) * 1000000ull / 3);
     uint64_t syncAt = 0;
     for (;;)
     {
@@ -571,7 +601,7 @@ struct ServerDriver
       bool s;
       {
         std::lock_guard<std::mutex> g(g_rec.m);
-        n = g_rec.recs.size();
+        n = countMine();
         s = g_rec.syncSeen >= syncId;
       }
       uint64_t now = vf::nowNs();
@@ -591,8 +621,12 @@ struct ServerDriver
     pump(&conn, 0);
     {
       std::lock_guard<std::mutex> g(g_rec.m);
-      o.reqs = g_rec.recs;
-      g_rec.recs.clear(); // anything recorded from now on is "late" (counted at the next framing)
+      for (auto &r : g_rec.recs)
+      {
+        if (r.sid == conn.sid) o.reqs.push_back(r);
+        else lateRecords++;
+      }
+      g_rec.recs.clear(); // anything recorded from now on is "late" (counted, never attributed)
       o.sync = g_rec.syncSeen >= syncId;
     }
     o.closed = conn.eof;
@@ -630,15 +664,15 @@ struct ServerDriver
     waitQuiescent(c, o, syncId, careful);
     o.peak = mem::peakSince(base);
     framings++;
-    if (!o.sync || o.closed) conn.closeFd(); // dirty or dead session: never reuse
+    // reuse the session only after a clean, complete framing of a valid stream; anything else
+    // (residue in the buffer, a close under way, stragglers possible) gets a fresh session
+    if (!o.sync || o.closed || c.kind != "v" || (long)o.reqs.size() != c.expectN || !o.exc.empty()) conn.closeFd();
     return o;
   }
 
   Obs runSocket(const Case &c, const Seg &sg, bool careful)
   {
     Obs o;
-    conn.closeFd();
-    conn = Conn{};
     {
       std::lock_guard<std::mutex> g(g_rec.m);
       if (!g_rec.recs.empty()) lateRecords += g_rec.recs.size();
@@ -652,8 +686,9 @@ struct ServerDriver
     uint64_t recv0 = sp.recvCalls.load();
     int64_t base = mem::begin();
     g_watch.setCase(c.id, sg.z ? ("[\"z\"," + std::to_string(sg.z) + "]") : cutsJson(sg.cuts));
-    conn.fd = rawConnect(port);
-    if (conn.fd < 0) { o.exc = "HARNESS: connect failed"; return o; }
+    if (!prime() && !prime()) { o.exc = "HARNESS: connect/prime failed"; sp.mode.store(0); sp.maxLen.store(0); return o; }
+    recv0 = sp.recvCalls.load();
+    base = mem::begin();
     auto ps = pieces(c.stream.size(), sg.cuts);
     bool ok = true;
     for (size_t i = 0; i < ps.size() && ok; i++)
@@ -733,12 +768,14 @@ static int runServer(const vf::Args &args, bool socketMode)
   g_watch.wallLimitNs = args.u("wall-limit-ms", 90000) * 1000000ull;
   g_watch.start(modeName);
   uint64_t rerunOk = 0;
+  size_t diffCases = 0, maxDiffCases = args.u("max-diff-cases", 8);
   for (size_t ci = from; ci < cases.size(); ci++)
   {
     const Case &c = cases[ci];
     vf::out().line("{\"t\":\"begin\",\"mode\":" + vf::jstr(modeName) + ",\"id\":" + vf::jstr(c.id) + ",\"idx\":" + std::to_string(ci) + "}");
     uint64_t t0 = vf::nowNs();
     auto segs = expandSegs(c, seed);
+    const long vp = (c.kind == "h") ? c.expectN : -1;
     Obs ref = d.run(c, segs[0], false);
     bool refSuspicious = !ref.exc.empty() || !ref.sync || (c.expectN >= 0 && (long)ref.reqs.size() != c.expectN);
     if (refSuspicious && c.kind != "f")
@@ -746,7 +783,7 @@ static int runServer(const vf::Args &args, bool socketMode)
       // re-run the reference once on a fresh session with generous waits: only a reproduced
       // observation is reported
       Obs again = d.run(c, segs[0], true);
-      if (again.canon() != ref.canon()) { rerunOk++; ref = again; }
+      if (again.canon(vp) != ref.canon(vp)) { rerunOk++; ref = again; }
     }
     if (socketMode && c.kind != "v" && (!ref.sync))
     {
@@ -767,11 +804,18 @@ static int runServer(const vf::Args &args, bool socketMode)
     std::string diffs;
     size_t ndiff = 0;
     int64_t peak = ref.peak;
-    std::string refCanon = ref.canon();
+    std::string refCanon = ref.canon(vp);
     // A reference that already lost/gained requests or killed the session is a primary finding;
     // exploring every cut of such a stream only re-measures the race between the asynchronous
     // session close and the later feeds. Keep a small evenly spread sample of segmentations.
     bool capped = false;
+    if (diffCases >= maxDiffCases && segs.size() > 1)
+    {
+      // enough segmentation-dependent cases were already found by this process: do not spend the
+      // remaining budget re-measuring a broken tree (only the reference is judged from here on)
+      segs.resize(1);
+      capped = true;
+    }
     if (c.kind == "v" && (!ref.sync || ref.closed || (long)ref.reqs.size() != c.expectN) && segs.size() > 13)
     {
       std::vector<Seg> keep;
@@ -782,22 +826,26 @@ static int runServer(const vf::Args &args, bool socketMode)
     }
     for (size_t si = 1; si < segs.size(); si++)
     {
+      d.shortWait = true;
       Obs o = d.run(c, segs[si], false);
+      d.shortWait = false;
       peak = std::max(peak, o.peak);
-      if (o.canon() == refCanon) continue;
+      if (o.canon(vp) == refCanon) continue;
       Obs o2 = d.run(c, segs[si], true);
       peak = std::max(peak, o2.peak);
-      if (o2.canon() == refCanon) { rerunOk++; continue; }
+      if (o2.canon(vp) == refCanon) { rerunOk++; continue; }
       // the reference itself may have been the odd one out: confirm it once more
       Obs r2 = d.run(c, segs[0], true);
-      if (r2.canon() == o2.canon()) { rerunOk++; ref = r2; refCanon = r2.canon(); continue; }
+      if (r2.canon(vp) == o2.canon(vp)) { rerunOk++; ref = r2; refCanon = r2.canon(vp); continue; }
       ndiff++;
       if (ndiff <= 4)
       {
         if (!diffs.empty()) diffs += ",";
         diffs += "{\"cuts\":" + cutsJson(segs[si].cuts) + ",\"z\":" + std::to_string(segs[si].z) + ",\"obs\":" + o2.json() + "}";
       }
+      if (ndiff >= 6) { capped = true; break; }
     }
+    if (ndiff) diffCases++;
     vf::out().line("{\"t\":\"c15\",\"mode\":" + vf::jstr(modeName) + ",\"id\":" + vf::jstr(c.id) + ",\"nseg\":" + std::to_string(segs.size()) +
                    ",\"ref\":" + ref.json() + ",\"ndiff\":" + std::to_string(ndiff) + ",\"diffs\":[" + diffs + "],\"peak\":" + std::to_string(peak) +
                    ",\"capped\":" + (capped ? "true" : "false") +
@@ -1111,12 +1159,15 @@ static int runClient(const vf::Args &args)
   g_watch.wallLimitNs = (uint64_t(d.reqTimeoutMs) * 4 + 60000) * 1000000ull;
   g_watch.start("client-socket");
   uint64_t rerunOk = 0;
+  size_t diffCases = 0, maxDiffCases = args.u("max-diff-cases", 8);
   for (size_t ci = from; ci < cases.size(); ci++)
   {
     const Case &c = cases[ci];
     vf::out().line("{\"t\":\"begin\",\"mode\":\"client-socket\",\"id\":" + vf::jstr(c.id) + ",\"idx\":" + std::to_string(ci) + "}");
     uint64_t t0 = vf::nowNs();
     auto segs = expandSegs(c, seed);
+    bool capped = false;
+    if (diffCases >= maxDiffCases && segs.size() > 1) { segs.resize(1); capped = true; }
     CObs ref = d.run(c, segs[0], false);
     std::string refCanon = ref.canon();
     int64_t peak = ref.peak;
@@ -1125,6 +1176,7 @@ static int runClient(const vf::Args &args)
     for (size_t si = 1; si < segs.size(); si++)
     {
       if (segs[si].z) continue;
+      if (ndiff >= 3) { capped = true; break; }
       CObs o = d.run(c, segs[si], false);
       peak = std::max(peak, o.peak);
       if (o.canon() == refCanon) continue;
@@ -1140,10 +1192,10 @@ static int runClient(const vf::Args &args)
         diffs += "{\"cuts\":" + cutsJson(segs[si].cuts) + ",\"obs\":" + o2.json() + "}";
       }
     }
-    std::string head;
-    { std::lock_guard<std::mutex> g(d.ss.m); head = d.ss.lastRequestHead; }
+    if (ndiff) diffCases++;
     vf::out().line("{\"t\":\"c15\",\"mode\":\"client-socket\",\"id\":" + vf::jstr(c.id) + ",\"nseg\":" + std::to_string(segs.size()) + ",\"ref\":" +
                    ref.json() + ",\"ndiff\":" + std::to_string(ndiff) + ",\"diffs\":[" + diffs + "],\"peak\":" + std::to_string(peak) +
+                   ",\"capped\":" + (capped ? "true" : "false") +
                    ",\"len\":" + std::to_string(c.stream.size()) + ",\"ms\":" + std::to_string((vf::nowNs() - t0) / 1000000) + "}");
     vf::out().obsMax("peak_live_bytes_per_case", (uint64_t)std::max<int64_t>(0, peak));
   }
